@@ -204,10 +204,13 @@ _DRV_ASSUME = ["IPv4 variants of F-TEID / UE IP address / outer header creation;
                "little-endian host (go-nl uses native endianness)"]
 PROPS["C02"] = dict(
     module="UpfVerif.Props.C02",
-    streams=[dict(name="drv", shards=4, shards_thorough=16, seed_per_shard=True, timeout=600, timeout_thorough=3000)],
+    streams=[dict(name="drv", shards=4, shards_thorough=16, seed_per_shard=True, timeout=600, timeout_thorough=3000),
+             dict(name="buf", args=["net=216"], shards=2, shards_thorough=6, seed_per_shard=True, timeout=900, timeout_thorough=3000)],
     rule="S-drv: random Create/Update PDR/FAR grouped IEs built with go-pfcp: every field boundary+random, 0-3 QER ids / URR ids / SDF filters (grammar-generated flow descriptions, "
          "8% possibly invalid), PDI children and top-level children shuffled, all four source interfaces, OHC descriptions GTP-U/UDP/IPv4, SEIDs incl. 0, 1, 2^32, 2^63, 2^64-1; "
-         "the request bytes are compared with the model and read back by the Lean reader against the IE's content; distinct = distinct input lines",
+         "the request bytes are compared with the model and read back by the Lean reader against the IE's content; plus the S-full buffering stream: after every Update FAR "
+         "against a data plane that holds buffering FARs with related PDRs and QERs, the FAR table of the simulated kernel is compared with the IE's content under its own (SEID, FAR id); "
+         "distinct = distinct input lines",
     trusted_base=_DRV_TB, assumptions=_DRV_ASSUME,
     level_text="Kernel-checked (Props/C02.lean): for EVERY PDR/FAR content and EVERY arrangement of it as child IEs (any order, ignored children anywhere, any 64-bit SEID) the request "
                "built by the model of gtp5g.go, read by the independent gtp5g reader, is exactly the IE's content under its own (SEID, id): ids, precedence, source interface, F-TEID, UE address, "
